@@ -545,6 +545,106 @@ def check_metadata(ctx):
         ctx.ob("C09.4", "verif.location.Location.__init__", ok, "Location.%s <- parameter %s" % (a, a), msg="Location.%s is not set from parameter %s" % (a, a))
 
 
+def _occurrences(x, conds, out):
+    """(symbol name, conditions of the conditional expressions it sits under) for every symbol occurrence in a value"""
+    if isinstance(x, (tuple, list)):
+        for y in x:
+            _occurrences(y, conds, out)
+        return
+    if not isinstance(x, Rat):
+        return
+    for a in x.atoms(deep=False):
+        if a.func.startswith("$") and not a.args:
+            out.append((a.func[1:], list(conds)))
+        elif a.func == "ifexp" and len(a.args) == 3 and isinstance(a.args[0], Rat):
+            _occurrences(a.args[0], conds, out)
+            _occurrences(a.args[1], conds + [(a.args[0], True)], out)
+            _occurrences(a.args[2], conds + [(a.args[0], False)], out)
+        else:
+            for y in a.args:
+                _occurrences(y, conds, out)
+
+
+def check_row_independence(ctx):
+    """Every value is stored at its OWN coordinate: what one data row stores (key and value) depends on the rows before it only through
+    the header (column positions) and the per-id location table - not through a scalar left over from the previous row.
+    The body of the row loop is folded once with everything it inherits from earlier iterations symbolic.  A local that the body
+    assigns from the row's text under condition Q and whose INHERITED value reaches a stored key/value under condition P is a
+    leftover of an earlier row whenever P and Q can hold together - compared over the conditions that are the same for all rows
+    (tests on `indices` / `header`), the row-specific ones left free.  The defaults (`unixtime = 0` before the loop, used when the
+    file has no time column) pass: there P says "no date and no unixtime column" and Q says "one of them exists"."""
+    from .. import boolq
+    prog = ctx.prog
+    site = "verif.input.Text.__init__"
+    m = prog.module("verif.input")
+    f = prog.own_method(site)
+    loop = None
+    for st in ast.walk(f):
+        if isinstance(st, ast.For) and dotted(st.iter) == "file" and isinstance(st.target, ast.Name):
+            loop = st
+    if loop is None:
+        ctx.undecided_item("C09.7", site, "the loop over the lines of the file is not in this function")
+        return
+    rowvar = loop.target.id
+    builtin = {"self", "np", "verif", "float", "int", "len", "range", "dict", "list", "set", "str", "True", "False", "None", "enumerate", "zip", "any", "all",
+               "sorted", "max", "min", "abs", "tuple", "isinstance"}
+    names = set(n.id for n in ast.walk(loop) if isinstance(n, ast.Name)) - set(m.aliases) - builtin - {rowvar}
+    env = {n: Rat.sym(n) for n in names}
+    env[rowvar] = Rat.sym(rowvar)
+    ev = symeval.Evaluator(m)
+    ev.loop_mode, ev.merge_ifs, ev.record = "unroll2", True, True
+    for c in m.classes.values():
+        if any(g is f for g in c.methods.values()):
+            ev.cls = c
+    try:
+        ev.run_stmts(loop.body, env=env)
+    except (symeval.Undecided, AnalysisError) as e:
+        ctx.undecided_item("C09.7", site, "the body of the row loop cannot be folded (%s)" % e)
+        return
+    assigned = {}
+    for e in ev.events:
+        if e["kind"] == "assign" and isinstance(e.get("name"), str) and "." not in e["name"] and isinstance(e.get("value"), Rat) and rowvar in e["value"].key():
+            assigned.setdefault(e["name"], []).append(e["conds"])
+    carried = set(assigned) & names
+
+    def stable(k):
+        return ("$indices" in k or "$header" in k) and rowvar not in k
+
+    def restrict(f_, prime):
+        if f_[0] == "atom":
+            return f_ if stable(f_[1]) else ("atom", f_[1] + prime)
+        if f_[0] == "not":
+            return ("not", restrict(f_[1], prime))
+        if f_[0] in ("and", "or"):
+            return (f_[0], [restrict(x, prime) for x in f_[1]])
+        return f_
+    stores = [e for e in ev.events if e["kind"] == "store" and isinstance(e.get("root"), str) and not e["root"].startswith("self.")]
+    ctx.need(len(stores) >= 5, "%s: fewer than 5 dictionary stores in the body of the row loop (%d)" % (site, len(stores)))
+    bad = {}
+    for e in stores:
+        occ = []
+        _occurrences(list(e["indices"]) + [e["value"]], [], occ)
+        for v, vc in occ:
+            if v not in carried:
+                continue
+            P = restrict(boolq.conj(list(e["conds"]) + vc), "")
+            Q = restrict(boolq.disj(boolq.conj(c_) for c_ in assigned[v]), "'")
+            try:
+                w = boolq.differ(("and", [P, Q]), ("const", False), limit=14)
+            except boolq.TooBig:
+                w = None
+            if w is not None:
+                bad.setdefault((e["root"], v), (e, boolq.show({k: x for k, x in w.items() if x and stable(k)})))
+    roots = sorted(set(e["root"] for e in stores))
+    for root in roots:
+        mine = sorted(v for (r_, v) in bad if r_ == root)
+        e0 = bad[(root, mine[0])][0] if mine else [e for e in stores if e["root"] == root][0]
+        ctx.ob("C09.7", site, not mine, "what a row stores in '%s' does not depend on a scalar left over from an earlier row" % root, loc=prog.loc(m, e0["node"]),
+               msg="the key / value stored in '%s' uses the value that %s kept from an EARLIER row (the same variable is assigned from the row's own text, e.g. when %s): "
+                   "the value lands at another row's coordinate" % (root, "/".join(mine), bad[(root, mine[0])][1][:160] if mine else ""),
+               sample={"rule": "C09.7", "dictionary": root, "leftover_variables": mine, "row_assigned_locals": len(carried)})
+
+
 def run(ctx):
     ctx.rule("C09.1", "column -> dictionary -> attribute wiring; level = float(name[1:]); aliases")
     ctx.rule("C09.2", "column classification predicates and their complement")
@@ -557,6 +657,8 @@ def run(ctx):
     check_classification(ctx)
     check_metadata(ctx)
     check_header_names(ctx)
+    ctx.rule("C09.7", "row independence: no scalar left over from an earlier row reaches a stored key or value")
+    check_row_independence(ctx)
     from . import c04
     from .c04 import _import
     sub = type(ctx)(ctx.prog, "C04", ctx.tier, True)
@@ -574,6 +676,6 @@ CLAIM = {
              "every well-formed file; no file is read.",
     "note": "Trusted: CPython ast, vsa symbolic folding, str.split/float. Part of the row-parsing rules are syntactic patterns over the current "
             "structure of Text.__init__ (a restructuring yields ANALYSIS-ERROR or a finding to triage, never a silent pass).",
-    "technique": "static analysis: provenance of dictionary keys/values (AST def-use + symbolic event log), positional index discipline, "
+    "technique": "static analysis: C09.7 row independence (the row-loop body folded with its inherited state symbolic; satisfiability of read-condition and assign-condition over the row-invariant tests); provenance of dictionary keys/values (AST def-use + symbolic event log), positional index discipline, "
                  "predicate-set comparison, guard/use rule for split()",
 }
